@@ -14,6 +14,7 @@ import (
 	"strings"
 	"sync"
 	"testing"
+	"time"
 
 	"github.com/Comcast/sheens/core"
 	"github.com/Comcast/sheens/match"
@@ -173,6 +174,9 @@ func verifRunCase(dir string, c *verifCase) {
 	c.Go = map[string]interface{}{"steps": steps}
 	if !down {
 		c.Probe = map[string]interface{}{"noLostUpdate": verifConcurrent(ctx, s)}
+		if c.Id%3 == 0 {
+			c.Probe["emissionsFedBackOnce"] = verifFanout(ctx, s, specDir)
+		}
 	}
 	if !down {
 		s.store.Close(ctx)
@@ -237,6 +241,64 @@ func verifConcurrent(ctx context.Context, s *Service) bool {
 		ok = false
 	}
 	return ok
+}
+
+// verifFanout: one action emits several messages in a single stride; the service feeds each of
+// them back (asynchronously); a recorder machine must see every one of them exactly once.
+func verifFanout(ctx context.Context, s *Service, specDir string) bool {
+	const k = 6
+	fan := map[string]interface{}{"name": "vfan", "nodes": map[string]interface{}{
+		"start":  map[string]interface{}{"branching": map[string]interface{}{"branches": []interface{}{map[string]interface{}{"target": "listen"}}}},
+		"listen": map[string]interface{}{"branching": map[string]interface{}{"type": "message", "branches": []interface{}{map[string]interface{}{"pattern": map[string]interface{}{"fan": "?n"}, "target": "emit"}}}},
+		"emit": map[string]interface{}{"action": map[string]interface{}{"interpreter": "ecmascript",
+			"source": fmt.Sprintf("for (var i = 0; i < %d; i++) { _.out({\"to\": \"vrec\", \"i\": i}); } return {};", k)},
+			"branching": map[string]interface{}{"branches": []interface{}{map[string]interface{}{"target": "listen"}}}}}}
+	rec := map[string]interface{}{"name": "vrec", "nodes": map[string]interface{}{
+		"start":  map[string]interface{}{"branching": map[string]interface{}{"branches": []interface{}{map[string]interface{}{"target": "listen"}}}},
+		"listen": map[string]interface{}{"branching": map[string]interface{}{"type": "message", "branches": []interface{}{map[string]interface{}{"pattern": map[string]interface{}{"i": "?i"}, "target": "rec"}}}},
+		"rec": map[string]interface{}{"action": map[string]interface{}{"interpreter": "ecmascript",
+			"source": "var b = _.bindings; var key = \"seen\" + b[\"?i\"]; b[key] = (b[key] || 0) + 1; delete b[\"?i\"]; return b;"},
+			"branching": map[string]interface{}{"branches": []interface{}{map[string]interface{}{"target": "listen"}}}}}}
+	for name, spec := range map[string]interface{}{"vfan": fan, "vrec": rec} {
+		js, _ := json.Marshal(spec)
+		os.WriteFile(filepath.Join(specDir, name+".yaml"), js, 0o644)
+	}
+	if err := s.AddMachine(ctx, "vfan", "vfan", "start", nil); err != nil {
+		return true
+	}
+	if err := s.AddMachine(ctx, "vrec", "vrec", "start", nil); err != nil {
+		return true
+	}
+	if _, err := s.Process(ctx, map[string]interface{}{"to": "vfan", "fan": 1.0}, nil); err != nil {
+		return true
+	}
+	// the re-injection is asynchronous: wait until the recorder has settled
+	total := func() (int, bool) {
+		s.crew.RLock()
+		defer s.crew.RUnlock()
+		m := s.crew.Machines["vrec"]
+		sum, each := 0, true
+		for i := 0; i < k; i++ {
+			n, _ := m.State.Bs[fmt.Sprintf("seen%d", i)].(float64)
+			sum += int(n)
+			if n != 1 {
+				each = false
+			}
+		}
+		return sum, each
+	}
+	deadline := time.Now().Add(3 * time.Second)
+	for time.Now().Before(deadline) {
+		if sum, _ := total(); sum >= k {
+			break
+		}
+		time.Sleep(10 * time.Millisecond)
+	}
+	time.Sleep(50 * time.Millisecond) // a duplicate, if any, would arrive now
+	_, each := total()
+	s.RemMachine(ctx, "vfan")
+	s.RemMachine(ctx, "vrec")
+	return each
 }
 
 func TestVerifMCrewDriver(t *testing.T) {
